@@ -577,7 +577,16 @@ func (t *Typifier) binary(k ir.ExprBinary) (TypeRes, error) {
 			return V(ir.VectorType{Size: a.Size, Scalar: scBool}), nil
 		}
 		return TypeRes{}, fmt.Errorf("comparison of %s", TypeString(t.m, l))
-	case ir.BinaryAnd, ir.BinaryExclusiveOr, ir.BinaryInclusiveOr, ir.BinaryShiftLeft, ir.BinaryShiftRight:
+	case ir.BinaryAnd, ir.BinaryExclusiveOr, ir.BinaryInclusiveOr:
+		// WGSL has no mixed scalar/vector bitwise operators; if a front end accepts
+		// one, the broadcast reading is taken rather than flagged.
+		if _, ls := l.(ir.ScalarType); ls {
+			if _, rv := r.(ir.VectorType); rv {
+				return rr, nil
+			}
+		}
+		return lr, nil
+	case ir.BinaryShiftLeft, ir.BinaryShiftRight:
 		return lr, nil
 	}
 	return TypeRes{}, fmt.Errorf("unknown binary operator %d", k.Op)
